@@ -12,6 +12,7 @@ type GenOpts struct {
 	Kinds        []TKind
 	WrapPct      int  // chance that argument expressions are wrapped in rt.A
 	ShadowPct    int  // chance that Params come from variables named like generated identifiers
+	ImportPct    int  // chance that some functions of a flow come from a helper package, with value types from packages the file imports / does not import
 	Wide         int  // also generate this many wide programs (GenWide)
 	ParMatrix    bool // also generate the systematic signature matrix of Parallel programs (GenParMatrix)
 	BarePct      int  // chance that every argument is a bare identifier, poisoned once a user function runs
@@ -29,6 +30,7 @@ func DefaultOpts() GenOpts {
 		Kinds:      []TKind{KNamedInt, KNamedInt, KStruct, KPtr, KSlice, KMap, KGeneric, KNamedSlice, KU64, KI64, KStr, KArr},
 		WrapPct:    40,
 		BarePct:    12,
+		ImportPct:  20,
 		GenericPct: 15,
 		MaxColl:    3,
 		EndPct:     40,
@@ -221,8 +223,84 @@ func GenFlow(r *Rand, name string, o GenOpts) *Program {
 	if r.Intn(100) < o.BarePct {
 		p.Bare, p.Wrap = true, false
 	}
+	if !p.Bare && r.Intn(100) < o.ImportPct {
+		g.importize()
+	}
 	g.finish()
 	return p
+}
+
+// importize moves a random subset of a flow's functions into the helper
+// package ha (spelling SpImport). ha cannot import the program's package, so
+// every non-basic type such a function touches moves out as well: into hc
+// (which the program's file imports) when the file itself has to name the type
+// - Params, Results, FallbackWith values, functions that stay local - and into
+// hb, a package the file does not import, otherwise.
+func (g *flowGen) importize() {
+	p, r := g.p, g.r
+	f := p.Flow
+	var fns []*Fn
+	for i := range f.Tasks {
+		fns = append(fns, &f.Tasks[i].Fn)
+		if f.Tasks[i].Pred != nil {
+			fns = append(fns, f.Tasks[i].Pred)
+		}
+	}
+	moved := map[*Fn]bool{}
+	for _, fn := range fns {
+		if r.Chance(1, 2) {
+			moved[fn] = true
+		}
+	}
+	if len(moved) == 0 {
+		moved[fns[r.Intn(len(fns))]] = true
+	}
+	touchedByMoved := map[int]bool{}
+	namedByFile := map[int]bool{}
+	for _, t := range f.Params {
+		namedByFile[t] = true
+	}
+	for _, t := range f.Results {
+		namedByFile[t] = true
+	}
+	for i := range f.Tasks {
+		if f.Tasks[i].Fallback {
+			for _, t := range f.Tasks[i].Fn.Outs {
+				namedByFile[t] = true
+			}
+		}
+	}
+	for _, fn := range fns {
+		for _, t := range append(append([]int{}, fn.Ins...), fn.Outs...) {
+			if moved[fn] {
+				touchedByMoved[t] = true
+			} else {
+				namedByFile[t] = true
+			}
+		}
+	}
+	for t := 1; t < len(p.Types); t++ { // in type order: the random choices must not depend on map order
+		if !touchedByMoved[t] {
+			continue
+		}
+		if k := p.Types[t]; k >= KU64 && k <= KArr {
+			continue
+		}
+		ptr := r.Chance(1, 3)
+		switch {
+		case namedByFile[t] && ptr:
+			p.Types[t] = KVisPtr
+		case namedByFile[t]:
+			p.Types[t] = KVis
+		case ptr:
+			p.Types[t] = KExtPtr
+		default:
+			p.Types[t] = KExt
+		}
+	}
+	for fn := range moved {
+		fn.Spell = SpImport
+	}
 }
 
 func (g *flowGen) finish() {
